@@ -18,7 +18,7 @@ from .sysim import parse_http
 
 ALPHABET = ['"', "{", "}", "[", "]", ",", ":", "\\", " ", "0", "a", "é", "\u0000"]
 
-JSON_VALUES = ["null", "true", "false", "0", "-1", "1.5", '""', '"x"', "[]", "[1]", "{}", '{"a": 1}', '"\\ud800"', '"\\u00e9"']
+JSON_VALUES = ["null", "true", "false", "0", "-1", "1.5", '""', '"x"', "[]", "[1]", "{}", '{"a": 1}', '"\\ud800"', '"\\u00e9"', "1e999", "-1e999"]
 
 FIXED_CORPUS = [
     '{"jsonrpc": "2.0", "method": "echo", "params": ["é", 1], "id": 1}',
@@ -31,6 +31,8 @@ FIXED_CORPUS = [
     '{"jsonrpc": "2.0", "method": "none", "params": [], "id": 1.5}',
     '[1, "a", {}, [], {"jsonrpc": "2.0", "method": "echo", "id": 4}]',
     '{"jsonrpc": "2.0", "method": "fail", "params": ["中"], "id": "中"}',
+    '{"jsonrpc": "2.0", "method": "echo", "params": [1], "id": 1e999}',
+    '{"method": "echo", "params": [-1e999], "id": 3}',
 ]
 
 
@@ -123,6 +125,14 @@ def apply_damage(text, dmg):
 # the validator, written from the property text
 
 
+class NonStandardLiteral(ValueError):
+    pass
+
+
+def _reject_constant(name):
+    raise NonStandardLiteral(name)
+
+
 def check_error(e):
     return isinstance(e, dict) and isinstance(e.get("code"), int) and not isinstance(e.get("code"), bool) and isinstance(e.get("message"), str)
 
@@ -155,7 +165,9 @@ def check_reply(text):
     if text == "":
         return None
     try:
-        obj = json.loads(text)
+        obj = json.loads(text, parse_constant=_reject_constant)
+    except NonStandardLiteral as ex:
+        return "reply uses the non-standard literal %s" % ex
     except ValueError:
         return "reply is not JSON"
     if isinstance(obj, list):
@@ -167,6 +179,23 @@ def check_reply(text):
                 return r
         return None
     return check_object(obj)
+
+
+def has_overflowing_number(text):
+    """True when the request is JSON and one of its number tokens is beyond the range of a float."""
+    seen = []
+
+    def pf(tok):
+        f = float(tok)
+        if f in (float("inf"), float("-inf")):
+            seen.append(tok)
+        return f
+
+    try:
+        json.loads(text, parse_float=pf, parse_constant=_reject_constant)
+    except ValueError:
+        return False
+    return bool(seen)
 
 
 def in_domain(text):
@@ -316,7 +345,12 @@ def analyse_c02(program, s, run, verdict):
             continue
         why = check_reply(out[1])
         if why:
-            v.append(Violation("C02", "well-formed", why.split(" ")[0] + "-" + why.split(" ")[-1][:12], "%s: body %r -> reply %r" % (why, text[:100], out[1][:120])))
+            if "non-standard literal" in why:
+                # narrow class: the reply echoes a number of the request that overflows a float
+                sig = "overflowing-number-echoed" if has_overflowing_number(text) else "non-standard-literal"
+            else:
+                sig = why.split(" ")[0] + "-" + why.split(" ")[-1][:12]
+            v.append(Violation("C02", "well-formed", sig, "%s: body %r -> reply %r" % (why, text[:100], out[1][:120])))
     pr = run.probe
     ok = pr[0] == 200 and pr[1] is not None and json.loads(pr[1] or "{}").get("result") == 42 if pr[1] else False
     if not ok:
